@@ -295,6 +295,27 @@ def order_hook(world, spec, oi, op, q, rec):
             for gi, grp in enumerate(order):
                 for f in grp:
                     group_of[id(f)] = gi
+        # the groups respect the program's directives (reference: the solve_order statements of the enabled blocks, read
+        # from the program text - not the library's own dependency map): 'before' fields sit in an earlier group
+        name_of = {}
+        for v, fm in var2fm.items():
+            pth = rec["fm_path"].get(id(fm))
+            if pth is not None:
+                name_of[R.vname(pth)] = fm
+        seen_pairs = set()
+        for befores, afters in rec["env"].order_log:
+            for bn in befores:
+                for an in afters:
+                    if bn == an or (bn, an) in seen_pairs or bn not in name_of or an not in name_of:
+                        continue
+                    seen_pairs.add((bn, an))
+                    rec["summary"]["order_pairs_checked"] = rec["summary"].get("order_pairs_checked", 0) + 1
+                    gb = group_of.get(id(name_of[bn]))
+                    ga = group_of.get(id(name_of[an]))
+                    if order is None or gb is None or ga is None or not gb < ga:
+                        _add(rec, "order_violation", "solve_order(%s, %s): both are solver variables of one rand set, but the groups randomised "
+                             "in sequence are %s (group of %s: %s, of %s: %s)" % (bn, an, None if order is None else [[getattr(f, "name", "?") for f in g] for g in order],
+                                                                                 bn, gb, an, ga), op, oi)
         last_group = -1
         pending = None
         last_sat = None
